@@ -3,6 +3,7 @@ package canarylab
 import (
 	"fmt"
 	"net"
+	"sync"
 )
 
 // Local describes the interface the hooked canaries are bound to: it must exist in
@@ -67,4 +68,26 @@ func (l Local) UDPFrame(p Peer, sport, dport uint16, payload []byte) []byte {
 
 func (l Local) ICMPFrame(p Peer, id, seq uint16, payload []byte) []byte {
 	return l.IPFrame(p, ProtoICMP, seq, ICMPEcho(id, seq, payload))
+}
+
+// Infra collects harness trouble met inside a rapid property. A property must not end
+// with Fatalf for it (the rapid wrapper would report a violation without a case): it
+// records the error, returns, and the test function fails with it after the rapid run.
+type Infra struct {
+	mu  sync.Mutex
+	err error
+}
+
+func (b *Infra) Set(err error) {
+	b.mu.Lock()
+	if b.err == nil {
+		b.err = err
+	}
+	b.mu.Unlock()
+}
+
+func (b *Infra) Err() error {
+	b.mu.Lock()
+	defer b.mu.Unlock()
+	return b.err
 }
